@@ -41,7 +41,7 @@ def main():
         args = [unesc(a) for a in it["args"]]
         answers = [unesc(a) for a in it.get("stdin", [])]
         argv = [unesc(a) for a in it.get("argv", it["args"])]          # what is typed; args is its normalised form
-        p = subprocess.Popen([sys.executable, "-B", "-m", "cvss.cvss_calculator"] + argv, stdin=subprocess.PIPE,
+        p = subprocess.Popen([sys.executable, "-B"] + it.get("pyflags", []) + ["-m", "cvss.cvss_calculator"] + argv, stdin=subprocess.PIPE,
                              stdout=subprocess.PIPE, stderr=subprocess.PIPE, env=env)
         data = "".join(a + "\n" for a in answers).encode("utf-8")
         out, err = p.communicate(data)
